@@ -328,6 +328,41 @@ def check_particles(name, cls, rng):
     return fails, cases, None
 
 
+def closed_form_particles(name, cls):
+    """closed-form trajectories of the particle classes: u_exact(0) is the configured initial state, d/dt pos = vel and d/dt vel = the
+    acceleration the class' right-hand side delivers along the trajectory (central differences), for every regime of the parameters"""
+    fails, cases = [], 0
+    if name == 'harmonic_oscillator':
+        # undamped, under-, over- and critically damped (mu/2 == sqrt(k)) with several frequencies and non-trivial initial states
+        sets = [dict(k=1.0, mu=0.0, u0=(1, 0)), dict(k=2.0, mu=0.5, u0=(1.0, -0.3)), dict(k=1.0, mu=3.0, u0=(0.7, 0.2)), dict(k=1.0, mu=2.0, u0=(1.0, 0.5)),
+                dict(k=4.0, mu=4.0, u0=(1.0, 0.5)), dict(k=2.25, mu=3.0, u0=(-0.4, 1.5)), dict(k=9.0, mu=0.0, u0=(0.0, 2.0))]
+    elif name == 'penningtrap':
+        sets = [dict(omega_B=25.0, omega_E=4.9, u0=np.array([[10, 0, 0], [100, 0, 100], [1], [1]], dtype=object), nparts=1, sig=0.1)]
+    else:
+        return fails, cases
+    for kw in sets:
+        P = cls(**kw)
+        tag = ','.join(f'{k}={v}' for k, v in kw.items() if k in ('k', 'mu'))
+        cases += 1
+        u0 = P.u_exact(0.0)
+        if name == 'harmonic_oscillator' and not (np.allclose(np.asarray(u0.pos).ravel(), kw['u0'][0], atol=1e-13) and np.allclose(np.asarray(u0.vel).ravel(), kw['u0'][1], atol=1e-13)):
+            fails.append(f'[{tag}] u_exact(0) = ({np.asarray(u0.pos).ravel()[0]:.6g}, {np.asarray(u0.vel).ravel()[0]:.6g}) is not the configured initial state {kw["u0"]}')
+        for t in (0.13, 0.9):
+            cases += 1
+            h = 1e-5
+            up, um, uc = P.u_exact(t + h), P.u_exact(t - h), P.u_exact(t)
+            dpos = (np.asarray(up.pos) - np.asarray(um.pos)) / (2 * h)
+            dvel = (np.asarray(up.vel) - np.asarray(um.vel)) / (2 * h)
+            f = P.eval_f(uc, t)
+            acc = np.asarray(P.build_f(f, uc, t)) if hasattr(P, 'build_f') else np.asarray(f)
+            sc = max(1.0, float(np.max(np.abs(acc))), float(np.max(np.abs(np.asarray(uc.vel)))))
+            if float(np.max(np.abs(dpos - np.asarray(uc.vel)))) > 1e-6 * sc:
+                fails.append(f'[{tag}] d/dt pos differs from vel of u_exact at t={t}: {float(np.max(np.abs(dpos - np.asarray(uc.vel)))):.2e}')
+            if float(np.max(np.abs(dvel - acc))) > 1e-6 * sc:
+                fails.append(f'[{tag}] d/dt vel differs from the right-hand side along u_exact at t={t}: {float(np.max(np.abs(dvel - acc))):.2e}')
+    return fails, cases
+
+
 def check_spectral(name, cls, rng):
     """spectral (tau) classes: solve_system(rhs, dt) must return u with  BC(M + dt*L) u = BC(M rhs)  -- the operator rows on the interior
     modes, the boundary / constraint rows instead of the highest modes -- for every solver type, whatever was solved before (the classes
@@ -404,6 +439,14 @@ def bounded_problem_contracts(tier, seed):
             if why:
                 uncovered.append(f'{name}: {why}')
             else:
+                try:
+                    cf, cc = closed_form_particles(name, cls)
+                except Exception as e:
+                    cf, cc = [f'closed-form check raised {type(e).__name__}: {str(e)[:80]}'], 0
+                total += cc
+                if cc:
+                    obs.append(dict(name=f'bounded:{name}:exact_solution', status='proved' if not cf else 'refuted', backend='runtime-contract', seconds=0.0, kind='bounded', size=0,
+                                    model=dict(first=cf[:5]) if cf else None, reason='', path=0, counted=False))
                 obs.append(dict(name=f'bounded:{name}:arguments_and_results', status='proved' if not fails else 'refuted', backend='runtime-contract', seconds=0.0, kind='bounded', size=0,
                                 model=dict(first=fails[:5]) if fails else None, reason='', path=0, counted=False))
             continue
